@@ -138,7 +138,12 @@ def generate(repo: str) -> tuple[str, str]:
     regets = [n for n in regets if "iteration_termination_checklist" in _ns(n.test)]
     if len(regets) != 1 or regets[0].orelse:
         raise TranslateError("LoopCombinatorStep.run: the re-`get` guard `if not (task_name in terminated and len(checklist) == 0)` not found")
-    chk_reads = ExprTranslator({"task_name in terminated": "terminated",
+    # fix 4e89c00: a FAILED / CANCELLED termination token sets `failed`, after which terminated ports are no longer re-read
+    fails = find_nodes(crun, ast.If, lambda n: any(_ns(b) == "failed=True" for b in n.body))
+    if len(fails) != 1 or fails[0].orelse:
+        raise TranslateError("LoopCombinatorStep.run: `if token.value in (…): failed = True` not found")
+    chk_fails = ExprTranslator({"token.value": "st"}, enums={"Status": "SFV.Status"}).tr(fails[0].test)
+    chk_reads = ExprTranslator({"task_name in terminated": "terminated", "failed": "failed",
                                 "len(self.iteration_termination_checklist[task_name])": "n"}).tr(regets[0].test)
     # ---- CWL _process_output -------------------------------------------------------------------
     cwl_py = os.path.join(repo, "streamflow/cwl/step.py")
@@ -191,8 +196,10 @@ def loopSortKeyLast (last : Int) : Int := {key_last}
 def loopChecklistClears (st : SFV.Status) : Bool := {chk_clears}
 /-- LoopCombinatorStep.run: a data token is added to the checklist (`prefixIn` = its tag prefix is on the checklist) -/
 def loopChecklistAdds (prefixIn : Bool) : Bool := {chk_adds}
-/-- LoopCombinatorStep.run: a new `get` is issued on the port (`terminated` = its termination token was taken, `n` = len(checklist)) -/
-def loopKeepsReading (terminated : Bool) (n : Int) : Bool := {chk_reads}
+/-- LoopCombinatorStep.run: a new `get` is issued on the port (`terminated` = its termination token was taken, `failed` = the step's flag, `n` = len(checklist)) -/
+def loopKeepsReading (terminated failed : Bool) (n : Int) : Bool := {chk_reads}
+/-- LoopCombinatorStep.run: a termination token with status `st` sets the step's `failed` flag -/
+def loopFails (st : SFV.Status) : Bool := {chk_fails}
 
 end SFV.Gen
 """
